@@ -215,11 +215,61 @@ def work(chunk, st, ctxs):
             st.sample({'category': task[0], 'db_name': task[1], 'advertised_as': task[2]})
 
 
+# ---- the notes of a name do not depend on what was audited before it in the same invocation either
+HIST = {
+    'exposed': dict(kex=['curve25519-sha256'], key=['ssh-ed25519', 'rsa-sha2-512'], enc=['chacha20-poly1305@openssh.com', 'aes128-cbc', 'aes256-ctr'], mac=['hmac-sha2-256-etm@openssh.com', 'hmac-sha2-256'], rsa_bits=1024),
+    'patched': dict(kex=['curve25519-sha256', MARK_S], key=['ssh-ed25519', 'rsa-sha2-512'], enc=['chacha20-poly1305@openssh.com', 'aes128-cbc', 'aes256-ctr'], mac=['hmac-sha2-256-etm@openssh.com', 'hmac-sha2-256'], rsa_bits=4096),
+    'plain': dict(kex=['curve25519-sha256', 'diffie-hellman-group-exchange-sha256'], key=['rsa-sha2-512'], enc=['aes256-ctr', 'aes128-cbc'], mac=['hmac-sha2-256'], rsa_bits=2048, gex=2048),
+    'smallgex': dict(kex=['diffie-hellman-group-exchange-sha256', 'curve25519-sha256'], key=['rsa-sha2-512', 'ssh-ed25519'], enc=['aes256-ctr'], mac=['hmac-sha2-256-etm@openssh.com'], rsa_bits=3072, gex=1024),
+}
+
+
+def hist_server(k):
+    sp = HIST[k]
+    return peer.Server(kex=sp['kex'], key=sp['key'], enc=sp['enc'], mac=sp['mac'], banner=b'SSH-2.0-dropbear_2022.83',
+                       host_keys=peer.standard_host_keys(sp['key'], rsa_bits=sp['rsa_bits']), gex=peer.GexPolicy([sp['gex']], peer.STRICT) if sp.get('gex') else None)
+
+
+def notes_of(out, fmt):
+    res = {}
+    if fmt == 'json':
+        for cat in ('kex', 'key', 'enc', 'mac'):
+            for e in out.get(cat, []):
+                res[(cat, e['algorithm'])] = sorted((lv, t) for lv in ('fail', 'warn', 'info') for t in e.get('notes', {}).get(lv, []))
+    else:
+        rep = report.TextReport(out)
+        for cat in ('kex', 'key', 'enc', 'mac'):
+            for a in rep.algs[cat]:
+                res[(cat, a['name'])] = sorted((lv, t) for lv, t in a['notes'] if t != '')
+    return res
+
+
+def work_history(chunk, st):
+    for kinds, fmt in chunk:
+        opts = ['-n', '--skip-rate-test'] + (['-j'] if fmt == 'json' else [])
+        res, outs = H.audit_sequence([hist_server(k) for k in kinds], opts=opts)
+        st.execution(res.world, outcome=('history', fmt, res.status), root=('history', kinds, fmt), nontrivial=('history', kinds, fmt))
+        if outs is None or len(outs) != len(kinds):
+            st.violation('history:output-shape', {'kinds': list(kinds), 'fmt': fmt, 'stdout': res.stdout[-300:]})
+            continue
+        for i, (k, o) in enumerate(zip(kinds, outs)):
+            _r, alone = H.audit_sequence([hist_server(k)], opts=opts)
+            a, b = notes_of(o, fmt), notes_of(alone[0], fmt)
+            if a != b:
+                diff = sorted(x for x in set(a) | set(b) if a.get(x) != b.get(x))
+                st.violation('history:rating-depends-on-earlier-targets:%s' % fmt, {'targets_in_run': list(kinds), 'index': i, 'target': k,
+                                                                                    'differing': [[list(x), a.get(x), b.get(x)] for x in diff[:4]]})
+    st.sample({'history': list(chunk[0][0])}, cap=3)
+
+
 def run(tier, seed):
     t0 = time.time()
     ts = tasks(tier)
     ctxs = contexts(tier)
     st = par.pmap(work, ts, extra=(ctxs,), chunk=4)
+    import itertools
+    hist = [(k, f) for n in ((2,) if tier == 'quick' else (2, 3)) for k in itertools.product(sorted(HIST), repeat=n) for f in ('text', 'json')]
+    par.pmap(work_history, hist, stats=st, chunk=4)
     # comma lists through --lookup
     for cat in ('kex', 'key', 'enc', 'mac'):
         names = H.db_names(cat)[:6]
@@ -244,6 +294,7 @@ def run(tier, seed):
         rule='every database name (gss-* entries instantiated with 3 base64 suffixes) and one unknown name per category x position '
              '{alone, first, middle, last} x %d neighbour contexts (marker x CBC x ETM, plus contexts whose neighbours earn measured-size notes: '
              '1024-bit RSA key, certificate with 1024-bit CA, 1024-bit GEX modulus) x role x {text,json}, plus --lookup of every name; '
+             'histories: every ordered pair (thorough: triple) of four servers sharing names in ONE -T invocation, each name rated as when its target is audited alone; '
              'non-trivial = distinct (category, name, documented context, position, role, format)' % len(ctxs),
         assumptions=['documented context = Terrapin context (refmodels/terrapin.py) and measured sizes (held fixed here)',
                      'notes compared as multisets'],
